@@ -280,6 +280,30 @@ impl Mutator<Vec<bool>> for ProbeMut {
     }
 }
 
+/// A mutator whose implementation itself uses an erased mutator, handing it a generator of its own
+/// (forked from the one it was given): erased calls nest, and each level must use the generator *it* was
+/// handed.
+struct NestedMut {
+    inner: Box<dyn DynMutator<Vec<bool>, ProbeFail> + Send + Sync>,
+    fork: bool,
+}
+impl Mutator<Vec<bool>> for NestedMut {
+    type Error = ProbeFail;
+    fn mutate<G: Rng + ?Sized>(&self, g: Vec<bool>, rng: &mut G) -> Result<Vec<bool>, ProbeFail> {
+        if self.fork {
+            use rand::SeedableRng;
+            let mut child = rand::rngs::StdRng::seed_from_u64(rng.next_u64());
+            let out = self.inner.mutate(g, &mut child)?;
+            // the parent generator is used again after the nested call
+            let mut out = out;
+            out.push(rng.next_u32() & 1 == 1);
+            Ok(out)
+        } else {
+            self.inner.mutate(g, rng)
+        }
+    }
+}
+
 #[derive(Clone, Debug, Serialize, Deserialize)]
 struct GenomeCase {
     genome: Vec<bool>,
@@ -373,6 +397,13 @@ fn genome_oracle(c: &GenomeCase, probe: &mut Probe) -> Result<(), Fail> {
         let m = ProbeMut { fail: c.fail, style: c.style };
         let env = MutEnv { concrete: &m, c };
         both_errors!(dyn_mut, ProbeFail, ProbeMut { fail: c.fail, style: c.style }, t_mut, &env, "Mutator");
+    }
+    {
+        // an erased mutator nested inside the implementation of another one
+        let mk = || NestedMut { inner: Box::new(ProbeMut { fail: c.fail, style: c.style }), fork: c.style % 3 != 0 };
+        let m = mk();
+        let env = MutEnv { concrete: &m, c };
+        both_errors!(dyn_mut, ProbeFail, mk(), t_mut, &env, "Mutator");
     }
     // recombinators
     {
